@@ -43,7 +43,7 @@ def run(tier):
     jsmn_dir = os.path.join(common.REPO, 'contrib/src/jsmn')
     jsmn_c = os.path.join(jsmn_dir, 'jsmn.c')
     maxn = 4096
-    maxt = 8 if tier == 'quick' else 32
+    maxt = int(os.environ.get('VERIF_MAXT', 8 if tier == 'quick' else 16))
     part.bounds += ['object size of js: %d+1 bytes (input length <= %d; loops are NOT unwound)' % (maxn, maxn),
                     'object size of tokens: %d+1 elements (token budget <= %d; loops are NOT unwound)' % (maxt, maxt)]
     part.trusted += [cbmcrun.tool_versions(), 'CBMC C semantics: LP64, two\'s complement, char signed']
